@@ -130,6 +130,9 @@ def run(tier, rep):
         samples += x['samples'][:1]
         for v in x['violations']:
             # key by the kind of failure and the dataset family, not by every dataset
+            if v['key'].startswith('history:'):
+                rep.violation('ga:history', v['text'])
+                continue
             if v['key'].startswith('ga:mode:'):
                 rep.violation(v['key'], v['text'])
                 continue
@@ -145,7 +148,7 @@ def run(tier, rep):
     rep.coverage.update({
         'evaluations': ev, 'distinct_nontrivial': nt, 'datasets': ds, 'datasets_the_encoder_cannot_write': skipped, 'cdf_lines_decoded': ln,
         'exhaustive': True, 'samples': samples[:4] or ['none'],
-        'rule': 'decay0_generator in each gA mode x 4 nuclides equals a dbd_gA object configured directly with the matching process (every (nuclide, process) pair has a dataset of its own); one object through initialise(A) -> reset -> initialise(B) vs. a new object on B for consecutive dataset pairs in both orders x the four method combinations x a 7x7 deviate grid (each pair in a forked child); datasets: every assignment of {0,1e-6,1,1e3} to the cells of the kinematic triangle for n=2,3 (n=4: every assignment of {1e-6,1e3}; thorough) and eight '
+        'rule': 'samplers are history-free: pairs for fixed streams in a pristine child process = pairs after other datasets went through the same process; the decoder is handed one output vector for all lines; decay0_generator in each gA mode x 4 nuclides equals a dbd_gA object configured directly with the matching process (every (nuclide, process) pair has a dataset of its own); one object through initialise(A) -> reset -> initialise(B) vs. a new object on B for consecutive dataset pairs in both orders x the four method combinations x a 7x7 deviate grid (each pair in a forked child); datasets: every assignment of {0,1e-6,1,1e3} to the cells of the kinematic triangle for n=2,3 (n=4: every assignment of {1e-6,1e3}; thorough) and eight '
                 'shapes (flat, ridge, corner, zero cells, runs of nines along rows / along e1 / deep, rising) for larger n, two energy ranges, written with the '
                 'repository\'s mkocdfdata.py; per dataset: every c.d.f. line decoded by load_optimized_cdf_array vs the encoder-side table (encoding precision), '
                 'monotone, in [0,1], ending at 1; inverse-transform sampler on all table boundaries (exact, +-1e-9, +-1e-3), mid points and tails: energies >= 0, '
